@@ -997,7 +997,10 @@ func (w *Worker) Nack(ctx context.Context, batch *Batch, taskID string) error {
 			// Both are fatal, so classification is unaffected either way — this
 			// is about not throwing away the cause.
 			if err != nil {
-				return cerrors.FatalError(cerrors.Errorf("%w (while handling: %w)", posErr, err))
+				// cerrors.Errorf (xerrors) supports a single %w: with two it
+				// wraps neither operand, which dropped both the coded position
+				// error and the cause from the chain. Join keeps both.
+				return cerrors.FatalError(cerrors.Join(posErr, cerrors.Errorf("while handling: %w", err)))
 			}
 			return cerrors.FatalError(posErr)
 		}
